@@ -218,8 +218,8 @@ def lat_card_fix(st):
     return st
 
 
-def check_state(scn, st, corrupt=None):
-    r = env.run(st.deck_text, st.options)
+def check_state(scn, st, corrupt=None, result=None):
+    r = result if result is not None else env.run(st.deck_text, st.options)
     if not r.ok:
         # acceptable only if the reference model owns no point at all (nothing to convert)
         P0 = geomdecide.witnesses(st.all_ref_planes())
